@@ -189,6 +189,33 @@ fn main() {
         }
     }
 
+    // two different types whose paths end in the same identifier: each is checked against its own recorded layout
+    // (the second recorded with the layout of the first - which is wrong for it - must be refused), in both orders
+    {
+        let (pa, pb) = ("vharness::pa::Same", "vharness::pb::Same");
+        assert_eq!((std::mem::size_of::<vharness::pa::Same>(), std::mem::size_of::<vharness::pb::Same>()), (8, 4));
+        for second_later in [false, true] {
+            for (first, (fs_, fa), second, (ss, sa), expect, what) in [
+                (pa, (8usize, 8usize), pb, (4usize, 4usize), "ok", "both recorded correctly"),
+                (pb, (4, 4), pa, (8, 8), "ok", "both recorded correctly"),
+                (pa, (8, 8), pb, (8, 8), "reject", "the second recorded with the layout of the first"),
+                (pb, (4, 4), pa, (4, 4), "reject", "the second recorded with the layout of the first"),
+                (pa, (4, 4), pb, (4, 4), "reject", "the first recorded with the layout of the second"),
+                (pa, (8, 8), pb, (8, 4), "reject", "the second recorded with the size of the first"),
+                (pa, (8, 8), pb, (4, 8), "reject", "the second recorded with the alignment of the first"),
+            ] {
+                let mut b = NativeRecordDefinitionBuilder::new(HostTypeResolver);
+                add_named(&mut b, "first", first, fs_, fa);
+                if second_later {
+                    b.close_record_variant();
+                }
+                add_named(&mut b, "second", second, ss, sa);
+                b.close_record_variant();
+                out.probe("C11", expect, &format!("types {} and {} (same last path segment), {}, second datum in variant {}", first, second, what, second_later as u8), b, "", "");
+            }
+        }
+    }
+
     // ------------------------------------------------------------ C13: fragment selections
     let ndefs = if thorough { 24 } else { 6 };
     for d in 0..ndefs {
